@@ -475,52 +475,28 @@ theorem copyInto_full (dst src : List Int) (h : src.length = dst.length) : copyI
   have h2 : dst.drop src.length = [] := by rw [h]; exact List.drop_length
   simp only [copyInto, h1, h2, List.append_nil]
 
-theorem bcLoop_same_ok : ∀ (sh st : List Int), st.length = sh.length →
-    ∃ t, bcLoop sh sh st = .ok t ∧ t.length = sh.length
-  | [], _, _ => ⟨[], by simp [bcLoop, pure, Except.pure], rfl⟩
-  | d :: ds, [], h => by simp at h
-  | d :: ds, x :: xs, h => by
-    obtain ⟨t, ht, hlen⟩ := bcLoop_same_ok ds xs (by simpa using h)
-    by_cases hd : d = 1
-    · exact ⟨0 :: t, by simp [bcLoop, ht, hd, bind, Except.bind, pure, Except.pure], by simp [hlen]⟩
-    · exact ⟨x :: t, by simp [bcLoop, ht, hd, bind, Except.bind, pure, Except.pure], by simp [hlen]⟩
+/-- an operand of the iterator's own shape with one stride per axis is not broadcast -/
+theorem hasShape_same (sh : Shape) (ap : AP) (hs : ap.shape = sh) (hl : ap.strides.length = sh.length) :
+    hasShape sh ap = true := by
+  simp [hasShape, hs, hl]
 
-theorem isVector_ne_nil (sh : Shape) (h : isVector sh = true) : sh ≠ [] := by
-  intro hs; subst hs; simp [isVector, isColVec, isRowVec] at h
-
-theorem bc_same_ok (sh st : List Int) (hl : st.length = sh.length) :
-    ∃ s, broadcastStrides sh sh sh.length st = .ok s := by
-  unfold broadcastStrides
-  by_cases hv : isVector sh = true
-  · have hne := isVector_ne_nil sh hv
-    cases st with
-    | nil =>
-      have : sh = [] := List.eq_nil_of_length_eq_zero (by simpa using hl.symm)
-      exact absurd this hne
-    | cons s0 rest => exact ⟨[s0], by simp [hv, pure, Except.pure]⟩
-  · obtain ⟨t, ht, _⟩ := bcLoop_same_ok sh st hl
-    have hv' : isVector sh = false := by simpa using hv
-    exact ⟨_, by simp [hv', ht, bind, Except.bind, pure, Except.pure]; rfl⟩
-
-/-- the pre-fill contents of the block of an operand of the iterator's own shape -/
-def preOf (sh : Shape) (st : List Int) : List Int :=
-  match broadcastStrides sh sh sh.length st with
-  | .ok s => copyInto (zeros sh.length) s
-  | .error _ => []
+/-- the pre-fill contents of the block of an operand of the iterator's own shape: a copy of its own strides -/
+def preOf (sh : Shape) (st : List Int) : List Int := copyInto (zeros sh.length) st
 
 def blkOf (sh : Shape) (st : List Int) : Blk := ⟨st, preOf sh st⟩
 
+theorem preOf_eq (sh st : List Int) (hl : st.length = sh.length) : preOf sh st = st :=
+  copyInto_full _ _ (by simp [zeros, hl])
+
 theorem preOf_length (sh st : List Int) (hl : st.length = sh.length) : (preOf sh st).length = sh.length := by
-  obtain ⟨s, hs⟩ := bc_same_ok sh st hl
-  simp [preOf, hs, copyInto_length, zeros]
+  rw [preOf_eq sh st hl]; exact hl
 
 theorem validate_ok (sh : Shape) : ∀ (aps : List AP), (∀ ap ∈ aps, ap.shape = sh ∧ ap.strides.length = sh.length) →
     validate sh sh.length aps = .ok ()
   | [], _ => rfl
   | ap :: aps, h => by
     obtain ⟨hs, hl⟩ := h ap (by simp)
-    obtain ⟨s, hb⟩ := bc_same_ok sh ap.strides hl
-    simp only [validate, hs, hb]
+    simp only [validate, hasShape_same sh ap hs hl, if_true]
     exact validate_ok sh aps (fun a ha => h a (by simp [ha]))
 
 /-- **The block assignment** (with or without sharing) on operands of the iterator's own shape: every
@@ -563,9 +539,8 @@ theorem assign_spec (share : Bool) (sh : Shape) : ∀ (aps : List AP) (bs : List
           obtain ⟨b, h1, h2⟩ := hserve j (by simpa using hj)
           exact ⟨b, by simpa using h1, by simpa using h2⟩
     | none =>
-      obtain ⟨s, hbc⟩ := bc_same_ok sh ap.strides hl
-      have hblk : (⟨ap.strides, copyInto (zeros sh.length) s⟩ : Blk) = blkOf sh ap.strides := by
-        simp [blkOf, preOf, hbc]
+      have hown := hasShape_same sh ap hs hl
+      have hblk : (⟨ap.strides, copyInto (zeros sh.length) ap.strides⟩ : Blk) = blkOf sh ap.strides := rfl
       have hb' : ∀ b ∈ bs ++ [blkOf sh ap.strides], b = blkOf sh b.key ∧ b.key.length = sh.length := by
         intro b hbm
         simp only [List.mem_append, List.mem_singleton] at hbm
@@ -575,7 +550,7 @@ theorem assign_spec (share : Bool) (sh : Shape) : ∀ (aps : List AP) (bs : List
       obtain ⟨bs', wx, hass, hinv, ⟨ext, hext⟩, hlen, hserve⟩ :=
         assign_spec share sh aps (bs ++ [blkOf sh ap.strides]) (w ++ [bs.length]) ha' hb'
       refine ⟨bs', bs.length :: wx, ?_, hinv, ⟨blkOf sh ap.strides :: ext, by simp [hext]⟩, by simp [hlen], ?_⟩
-      · simp only [assign, hlook, hs, hbc, hblk]
+      · simp only [assign, hlook, hown, if_true, hblk]
         rw [hass]
         simp
       · intro j hj
@@ -644,16 +619,15 @@ theorem built (share : Bool) (aps : List AP) (sh : Shape) (hne : aps ≠ [])
     have hw0 : wx[0]? = some 0 := by
       have h1 : (if share then ([] : List Blk).findIdx? (fun b => b.key == ap0.strides) else none) = none := by
         cases share <;> simp
-      obtain ⟨s, hbc⟩ := bc_same_ok sh ap0.strides (ha ap0 (by simp)).2
+      have hown := hasShape_same sh ap0 hs0 (ha ap0 (by simp)).2
       obtain ⟨bs', wx', hass', _, _, _, _⟩ := assign_spec share sh rest ([] ++ [blkOf sh ap0.strides]) ([] ++ [0])
         (fun a h => ha a (by simp [h])) (by
           intro b hb
           simp only [List.nil_append, List.mem_singleton] at hb
           subst hb; exact ⟨rfl, (ha ap0 (by simp)).2⟩)
-      have hblk : (⟨ap0.strides, copyInto (zeros sh.length) s⟩ : Blk) = blkOf sh ap0.strides := by
-        simp [blkOf, preOf, hbc]
+      have hblk : (⟨ap0.strides, copyInto (zeros sh.length) ap0.strides⟩ : Blk) = blkOf sh ap0.strides := rfl
       have : assign share sh sh.length (ap0 :: rest) [] [] = .ok (bs', [0] ++ wx') := by
-        simp only [assign, h1, hs0, hbc, hblk, List.length_nil]
+        simp only [assign, h1, hown, if_true, hblk, List.length_nil]
         exact hass'
       rw [hass] at this
       injection this with this
@@ -742,84 +716,30 @@ theorem dot_coordAt_agree (sh a b : List Int) (h : Agree sh a b) (k : Int) :
   rw [← dot_coordAt sh a ha k, ← dot_coordAt sh b hb k]
   exact dot_digits_agree _ _ _ (agree_reverse sh a b h) k
 
-/-- no axis that moves has stride 0 -/
+/-- **the guard of the main theorem**: no axis that moves (extent other than 1) has stride 0 — the loop
+    "fill 0s with 1s" of `NewMultIterator` would replace it by 1. (No tensor the library builds from positive
+    dimensions has such a stride.) -/
 def NoZeroStride : List Int → List Int → Prop
   | d :: ds, s :: ss => (d = 1 ∨ s ≠ 0) ∧ NoZeroStride ds ss
   | _, _ => True
 
-/-- **the guard of the main theorem**: the strides of the axes that move are not 0, and a row vector
-    `(1,n)`, `n > 1`, has inner stride 1 (finding F100 is its negation on reachable tensors) -/
-def GoodStrides (sh st : List Int) : Prop :=
-  NoZeroStride sh st ∧ (isRowVec sh = true → st[1]? = some 1)
-
-theorem bcLoop_agree : ∀ (sh st : List Int), st.length = sh.length → NoZeroStride sh st →
-    ∃ t, bcLoop sh sh st = .ok t ∧ t.length = sh.length ∧ Agree sh (fill t) st
-  | [], [], _, _ => ⟨[], by simp [bcLoop, pure, Except.pure], rfl, trivial⟩
+/-- "fill 0s with 1s" changes no stride of an axis that moves, as long as none of them is 0 -/
+theorem fill_agree : ∀ (sh st : List Int), st.length = sh.length → NoZeroStride sh st → Agree sh (fill st) st
+  | [], [], _, _ => trivial
   | [], _ :: _, h, _ => by simp at h
-  | d :: ds, [], h, _ => by simp at h
+  | _ :: _, [], h, _ => by simp at h
   | d :: ds, x :: xs, h, hz => by
-    obtain ⟨t, ht, hlen, hag⟩ := bcLoop_agree ds xs (by simpa using h) hz.2
-    by_cases hd : d = 1
-    · refine ⟨0 :: t, by simp [bcLoop, ht, hd, bind, Except.bind, pure, Except.pure], by simp [hlen], ?_⟩
-      exact ⟨Or.inl hd, by simpa [fill] using hag⟩
-    · refine ⟨x :: t, by simp [bcLoop, ht, hd, bind, Except.bind, pure, Except.pure], by simp [hlen], ?_⟩
-      have hx : x ≠ 0 := by
-        rcases hz.1 with h1 | h1
-        · exact absurd h1 hd
-        · exact h1
-      refine ⟨Or.inr ?_, by simpa [fill] using hag⟩
-      simp [hx]
+    have ih := fill_agree ds xs (by simpa using h) hz.2
+    refine ⟨?_, by simpa [fill] using ih⟩
+    rcases hz.1 with h1 | h1
+    · exact Or.inl h1
+    · right; simp [h1]
 
-/-- **Under the guard the filled block agrees with the operand's own strides** on every axis that moves. -/
-theorem preOf_agree (sh st : List Int) (hl : st.length = sh.length) (hg : GoodStrides sh st) :
+/-- **The filled block of an operand of the iterator's own shape agrees with the operand's own strides** on
+    every axis that moves — provided no such axis has stride 0 (the fill would turn it into 1). -/
+theorem preOf_agree (sh st : List Int) (hl : st.length = sh.length) (hz : NoZeroStride sh st) :
     Agree sh (fill (preOf sh st)) st := by
-  obtain ⟨hz, hrow⟩ := hg
-  by_cases hv : isVector sh = true
-  · -- the vector case of `BroadcastStrides`: one stride, the rest of the block filled with ones
-    match sh, st, hl, hz, hrow, hv with
-    | [d], [s0], _, hz, _, _ =>
-      have hpre : preOf [d] [s0] = [s0] := by
-        simp [preOf, broadcastStrides, isVector, isColVec, isRowVec, pure, Except.pure, copyInto, zeros]
-      rw [hpre]
-      refine ⟨?_, trivial⟩
-      rcases hz.1 with h1 | h1
-      · exact Or.inl h1
-      · right; simp [h1]
-    | [a, b], [s0, s1], _, hz, hrow, hv =>
-      have hpre : preOf [a, b] [s0, s1] = [s0, 0] := by
-        simp [preOf, broadcastStrides, hv, pure, Except.pure, copyInto, zeros]
-      rw [hpre]
-      have hv2 : isColVec [a, b] = true ∨ isRowVec [a, b] = true := by
-        simpa [isVector] using hv
-      rcases hv2 with hc | hr
-      · -- column vector (a,1)
-        have hb : b = 1 ∧ a > 1 := by simpa [isColVec] using hc
-        have ha1 : a ≠ 1 := by omega
-        have hs0 : s0 ≠ 0 := by
-          rcases hz.1 with h1 | h1
-          · exact absurd h1 ha1
-          · exact h1
-        exact ⟨Or.inr (by simp [hs0]), Or.inl hb.1, trivial⟩
-      · -- row vector (1,b): the inner stride must be 1
-        have ha : a = 1 ∧ b > 1 := by simpa [isRowVec] using hr
-        have hs1 : s1 = 1 := by simpa using hrow hr
-        exact ⟨Or.inl ha.1, Or.inr (by simp [fill, hs1]), trivial⟩
-    | [], _, _, _, _, hv => simp [isVector, isColVec, isRowVec] at hv
-    | _ :: _ :: _ :: _, _, _, _, _, hv => simp [isVector, isColVec, isRowVec] at hv
-    | [_], [], hl, _, _, _ => simp at hl
-    | [_], _ :: _ :: _, hl, _, _, _ => simp at hl
-    | [_, _], [], hl, _, _, _ => simp at hl
-    | [_, _], [_], hl, _, _, _ => simp at hl
-    | [_, _], _ :: _ :: _ :: _, hl, _, _, _ => simp at hl
-  · have hv' : isVector sh = false := by simpa using hv
-    obtain ⟨t, ht, hlen, hag⟩ := bcLoop_agree sh st hl hz
-    have hpre : preOf sh st = t := by
-      simp only [preOf, broadcastStrides, hv', Bool.false_and, Bool.false_eq_true, if_false, Nat.lt_irrefl,
-        Nat.sub_self, List.drop_zero, ht, bind, Except.bind, pure, Except.pure, zeros, List.replicate_zero,
-        List.nil_append]
-      have h1 : copyInto (List.replicate sh.length 0) t = t := copyInto_full _ _ (by simp [hlen])
-      rw [h1, h1]
-    rw [hpre]; exact hag
+  rw [preOf_eq sh st hl]; exact fill_agree sh st hl hz
 
 /-! ### the operand's own flat iterator, by coordinates -/
 
@@ -1014,6 +934,113 @@ theorem mkFit_rev_runs (sh : Shape) (b : Blk) (hl : b.pre.length = sh.length) (h
 
 theorem revFit_fits_mapM (fits : List FlatIt) (h : ∀ f ∈ fits, f.setReverse = .ok (revFit f)) :
     fits.mapM FlatIt.setReverse = .ok (fits.map revFit) := mapM_ok _ _ fits h
+
+/-! ### a direction switch after any number of calls -/
+
+/-- `SetReverse` reads the configuration only: on an iterator whose configuration is that of `f0` it gives what
+    it gives on `f0`, with the `lastIndex` of the iterator it was called on -/
+theorem setReverse_to (itk f0 : FlatIt) (hc : cfgEq itk f0) :
+    itk.setReverse = (match f0.setReverse with
+      | .ok g => .ok { g with lastIndex := itk.lastIndex }
+      | .error e => .error e) := by
+  obtain ⟨h1, h2, h3, h4, h5, h6, h7⟩ := hc
+  cases itk
+  cases f0
+  simp only at h1 h2 h3 h4 h5 h6 h7
+  subst h1 h2 h3 h4 h5 h6 h7
+  simp only [FlatIt.setReverse, FlatIt.reset, if_true]
+  split
+  · rfl
+  · split
+    · split <;> rfl
+    · split <;> rfl
+
+/-- `SetReverse` keeps `isScalar` and `lastIndex` -/
+theorem setReverse_keeps (f g : FlatIt) (h : f.setReverse = .ok g) :
+    g.isScalar = f.isScalar ∧ g.lastIndex = f.lastIndex := by
+  simp only [FlatIt.setReverse, FlatIt.reset, if_true] at h
+  split at h
+  · injection h with h; subst h; exact ⟨rfl, rfl⟩
+  · split at h
+    · split at h
+      · injection h with h; subst h; exact ⟨rfl, rfl⟩
+      · cases h
+    · split at h
+      · cases h
+      · injection h with h; subst h; exact ⟨rfl, rfl⟩
+
+theorem revFit_keeps (f : FlatIt) : (revFit f).isScalar = f.isScalar ∧ (revFit f).lastIndex = f.lastIndex := by
+  unfold revFit
+  cases h : f.setReverse with
+  | ok g => exact setReverse_keeps f g h
+  | error e => exact ⟨rfl, rfl⟩
+
+/-- the multi-iterator after `k` calls of `Next` followed by `SetReverse` -/
+def revOf (it : MultIt) (n k : Nat) : MultIt :=
+  { stateAt it n k with
+    fits := it.fits.map (fun f => { revFit f with lastIndex := (iterF f k).lastIndex }), done := false }
+
+theorem stateAt_setReverse (it : MultIt) (n : Nat) (hrev : ∀ f ∈ it.fits, f.setReverse = .ok (revFit f)) (k : Nat) :
+    (stateAt it n k).setReverse = .ok (revOf it n k) := by
+  have hr : (it.fits.map (fun f => iterF f k)).mapM FlatIt.setReverse =
+      .ok (it.fits.map (fun f => { revFit f with lastIndex := (iterF f k).lastIndex })) := by
+    rw [List.mapM_map]
+    apply mapM_ok
+    intro f hf
+    show (iterF f k).setReverse = _
+    rw [setReverse_to (iterF f k) f (iterF_cfg f k), hrev f hf]
+  simp only [MultIt.setReverse, stateAt, hr, revOf]
+  rfl
+
+theorem revOf_lockstep (it : MultIt) (n : Nat) (hpos : 0 < n) (hne : it.fits ≠ [])
+    (hruns : ∀ f ∈ it.fits, Runs (revFit f) n) (k : Nat) : Lockstep (revOf it n k) n := by
+  refine ⟨hpos, ?_, ?_, rfl⟩
+  · simp only [revOf]
+    intro hnil
+    exact hne (List.map_eq_nil_iff.1 hnil)
+  · intro g hg
+    simp only [revOf, List.mem_map] at hg
+    obtain ⟨f, hf, rfl⟩ := hg
+    refine (runs_li (revFit f) n hpos _ ?_ (hruns f hf)).1
+    intro hs
+    rw [(revFit_keeps f).2]
+    exact scalar_iterF_li f ((revFit_keeps f).1.symm.trans hs) k
+
+theorem revOf_fit (it : MultIt) (n : Nat) (hpos : 0 < n) (hruns : ∀ f ∈ it.fits, Runs (revFit f) n)
+    (k b : Nat) (f : FlatIt) (hb : it.fits[b]? = some f) :
+    ∃ g, (revOf it n k).fits[b]? = some g ∧ ∀ m, outF g m = outF (revFit f) m := by
+  refine ⟨{ revFit f with lastIndex := (iterF f k).lastIndex }, by simp [revOf, List.getElem?_map, hb], ?_⟩
+  refine (runs_li (revFit f) n hpos _ ?_ (hruns f (List.mem_of_getElem? hb))).2
+  intro hs
+  rw [(revFit_keeps f).2]
+  exact scalar_iterF_li f ((revFit_keeps f).1.symm.trans hs) k
+
+/-- the multi-iterator after `k` calls of `Next` followed by `SetForward` (`lastIndexArr` is not refreshed) -/
+def fwdOf (it : MultIt) (n k : Nat) : MultIt :=
+  { resetOf it k with last := (stateAt it n k).last }
+
+theorem stateAt_setForward (it : MultIt) (n : Nat) (hfresh : ∀ f ∈ it.fits, Fresh f) (k : Nat) :
+    (stateAt it n k).setForward = .ok (fwdOf it n k) := by
+  have hr : (it.fits.map (fun f => iterF f k)).mapM FlatIt.setForward =
+      .ok (it.fits.map (fun f => { f with lastIndex := (iterF f k).lastIndex })) := by
+    rw [List.mapM_map]
+    apply mapM_ok
+    intro f hf
+    have hF := hfresh f hf
+    have hc := iterF_cfg f k
+    show ({ iterF f k with reverse := false } : FlatIt).reset = _
+    exact reset_to { iterF f k with reverse := false } f
+      ⟨hc.1, hc.2.1, hc.2.2.1, hc.2.2.2.1, hF.fwd.symm, hc.2.2.2.2.2.1, hc.2.2.2.2.2.2⟩ hF.fwd hF.nd hF.ni hF.tr
+  simp only [MultIt.setForward, stateAt, hr, fwdOf, resetOf]
+  rfl
+
+theorem fwdOf_lockstep (it : MultIt) (n : Nat) (h : Lockstep it n) (k : Nat) : Lockstep (fwdOf it n k) n := by
+  have := resetOf_lockstep it n h k
+  exact ⟨this.pos, this.ne, this.runs, rfl⟩
+
+theorem fwdOf_fit (it : MultIt) (n : Nat) (h : Lockstep it n) (k b : Nat) (f : FlatIt) (hb : it.fits[b]? = some f) :
+    ∃ g, (fwdOf it n k).fits[b]? = some g ∧ ∀ m, outF g m = outF f m :=
+  resetOf_fit it n h k b f hb
 
 end MultIter
 end TM
